@@ -49,7 +49,8 @@ type c08Hist struct {
 	Calls     []c08Call
 }
 
-var c08Tags = []string{"valid", "a", "b"}
+// "a" and "A" differ only in letter case: two tag names, two rule sets
+var c08Tags = []string{"valid", "a", "b", "A"}
 
 // c08Build builds the history; it depends on (seed, tier) only, so every child and the parent build
 // the very same types, values and calls.
@@ -68,7 +69,7 @@ func c08Build(rng *rand.Rand, nHot, nCold, rounds, hotBlock int) *c08Hist {
 		h.HotTypes = append(h.HotTypes, t)
 		vals := []reflect.Value{}
 		for j := 0; j < 3; j++ {
-			vals = append(vals, ptrTo(tunedFill(rng, t, c08Tags[rng.Intn(3)], 0.15)))
+			vals = append(vals, ptrTo(tunedFill(rng, t, c08Tags[rng.Intn(len(c08Tags))], 0.15)))
 		}
 		h.HotVals = append(h.HotVals, vals)
 	}
@@ -106,7 +107,7 @@ func c08Build(rng *rand.Rand, nHot, nCold, rounds, hotBlock int) *c08Hist {
 		t := h.HotTypes[ti]
 		c := c08Call{Hot: ti, Cold: -1, Val: rng.Intn(3), Entry: rng.Intn(4), Tag: "valid"}
 		if c.Entry <= 1 {
-			c.Tag = c08Tags[rng.Intn(3)]
+			c.Tag = c08Tags[rng.Intn(len(c08Tags))]
 		}
 		if c.Entry == 1 || c.Entry == 2 {
 			c.RM = map[string]string{}
@@ -130,9 +131,9 @@ func c08Build(rng *rand.Rand, nHot, nCold, rounds, hotBlock int) *c08Hist {
 			switch rng.Intn(5) {
 			case 0: // A-then-B on the same type
 				c1 := hotCall(ti)
-				c1.Entry, c1.Tag, c1.RM = 0, c08Tags[rng.Intn(3)], nil
+				c1.Entry, c1.Tag, c1.RM = 0, c08Tags[rng.Intn(len(c08Tags))], nil
 				c2 := c1
-				c2.Tag = c08Tags[rng.Intn(3)]
+				c2.Tag = c08Tags[rng.Intn(len(c08Tags))]
 				add(c1)
 				add(c2)
 				k++
@@ -140,7 +141,7 @@ func c08Build(rng *rand.Rand, nHot, nCold, rounds, hotBlock int) *c08Hist {
 				c1 := hotCall(ti)
 				c1.Entry, c1.RM = 0, nil
 				c2 := c1
-				c2.Tag = c08Tags[(indexOf(c08Tags, c1.Tag)+1+rng.Intn(2))%3]
+				c2.Tag = c08Tags[(indexOf(c08Tags, c1.Tag)+1+rng.Intn(len(c08Tags)-1))%len(c08Tags)]
 				add(c1)
 				add(c2)
 				add(c1)
@@ -154,7 +155,7 @@ func c08Build(rng *rand.Rand, nHot, nCold, rounds, hotBlock int) *c08Hist {
 				// (unknown names become resolvable, built-ins are replaced) — then the plain call
 				c1 := hotCall(ti)
 				c1.Entry, c1.RM = 4, nil
-				c1.Tag = c08Tags[rng.Intn(3)]
+				c1.Tag = c08Tags[rng.Intn(len(c08Tags))]
 				c1.Fns = c08RuleNames(h.HotTypes[ti], c1.Tag, rng)
 				c2 := c1
 				c2.Entry, c2.Fns = 0, nil
@@ -473,7 +474,7 @@ func parentC08(p *core.ParentCtx) *core.Result {
 		// one the reference expects under ANOTHER tag name (and not under the requested one), all
 		// configurations are equally wrong — invisible to the relational comparison above.
 		for pos, call := range h.Calls {
-			if call.Hot < 0 || call.RM != nil || call.Fns != nil || strings.HasPrefix(base[pos], "PANIC") {
+			if call.Hot < 0 || strings.HasPrefix(base[pos], "PANIC") {
 				continue
 			}
 			raw, okRaw := rawBase[call.ID]
@@ -482,7 +483,13 @@ func parentC08(p *core.ParentCtx) *core.Result {
 			}
 			why := ""
 			agrees := func(tag string) bool {
-				env := &ref.Env{Tag: tag}
+				env := &ref.Env{Tag: tag, Unscoped: call.RM}
+				if call.Fns != nil {
+					env.Local = map[string]ref.FnModel{}
+					for _, n := range call.Fns {
+						env.Local[n] = ref.FnModel{Marker: fmt.Sprintf("fn_call%d_%s", call.ID, n)}
+					}
+				}
 				exps, _ := env.ExpectStruct(h.input(call))
 				if env.Unspec {
 					return tag == call.Tag // undecided: no complaint about the requested tag, no claim about another
@@ -505,7 +512,7 @@ func parentC08(p *core.ParentCtx) *core.Result {
 			}
 			res.Count("calls_disagreeing_with_reference_for_requested_tag")
 			matched := false
-			for _, other := range []string{"valid", "a", "b", "xvalid", "xa", "xb"} {
+			for _, other := range []string{"valid", "a", "b", "A", "xvalid", "xa", "xb", "xA"} {
 				if other != call.Tag && agrees(other) {
 					matched = true
 					res.Violate("C08|judged-by-other-tag|all-configurations", fmt.Sprintf("call #%d %s returned %q even with a cache that never remembers anything: that is what the rules under tag %q demand, not those under the requested tag %q (%s); type %s",
